@@ -110,9 +110,11 @@ Print Assumptions C20_json_error_bodies.
 Theorem C20_monitors_accept_model :
   (forall svc page field ctx payload, judge (CHole svc page field ctx payload (html_replace payload)) = 0) /\
   (forall svc msg, judge (CJson svc msg (if svc =? 0 then proxy_xhr_json msg else auth_error_json msg)) = 0) /\
+  (forall svc site real segs, rebuild real segs = real -> final_state real = SData ->
+     judge (CSame svc site real segs) = 0) /\
   (forall svc name F d d0 real segs via,
      page_safe (tpls_of svc) name = true -> output_only (tpls_of svc) name F = true -> rec_agree F d d0 ->
      render_page (tpls_of svc) name d = Some real -> render_page (tpls_of svc) name d0 = Some (rebuild real segs) ->
      judge (CPage svc name d real segs via) = 0).
-Proof. exact (conj judge_hole_model (conj judge_json_model judge_page_model)). Qed.
+Proof. exact (conj judge_hole_model (conj judge_json_model (conj judge_same_model judge_page_model))). Qed.
 Print Assumptions C20_monitors_accept_model.
